@@ -153,14 +153,41 @@ def load_known(pid: str):
     return known, fixed
 
 
+SUPPRESS_KNOWN = [True]      # replaying a witness switches suppression off: it must fail as recorded
+_known_cache = {}
+
+
+def key_matches(key: str, sig: str) -> bool:
+    return key == sig or key == sig_class(sig)
+
+
+def known_keys(pid: str):
+    """keys of the `known:` findings of a property; an oracle may skip exactly the comparison a key names
+    (and must count it). Empty while a witness is replayed."""
+    if not SUPPRESS_KNOWN[0]:
+        return set()
+    if pid not in _known_cache:
+        _known_cache[pid] = {k['key'] for k in load_known(pid)[0]}
+    return _known_cache[pid]
+
+
 # ----------------------------------------------------------------------------------------------
 # shrinking (delta debugging over the op list + property specific simplifications)
 # ----------------------------------------------------------------------------------------------
+def sig_class(sig: str) -> str:
+    """violation class used while minimising: the signature without its culprit field
+    (method:culprit:what -> method:what), so that dropping a bystander fault does not stop shrinking"""
+    parts = sig.split(':')
+    if len(parts) >= 3:
+        return parts[0] + ':' + ':'.join(parts[2:])
+    return sig
+
+
 def _fails_same(pid, case, sig):
     res = exec_case(pid, case)
     if res['harness_error']:
         return False
-    return any(f['sig'] == sig for f in res['failures'])
+    return any(sig_class(f['sig']) == sig_class(sig) for f in res['failures'])
 
 
 def shrink(pid: str, case: dict, sig: str, budget_s: float = 90.0, pool=None) -> dict:
@@ -223,9 +250,13 @@ def write_replay(pid, seed, run, case, failure, digest, directory=None) -> str:
 def replay_file(path: str):
     """returns (reproduced: bool, res, expect)"""
     rp = json.load(open(path))
-    res = exec_case(rp['property'], rp['case'])
+    SUPPRESS_KNOWN[0] = False
+    try:
+        res = exec_case(rp['property'], rp['case'])
+    finally:
+        SUPPRESS_KNOWN[0] = True
     exp = rp['expect']
-    ok = (not res['harness_error']) and any(f['sig'] == exp['sig'] for f in res['failures'])
+    ok = (not res['harness_error']) and any(sig_class(f['sig']) == sig_class(exp['sig']) for f in res['failures'])
     return ok, res, rp
 
 
@@ -238,7 +269,7 @@ def run_batch(pid: str, tier: str, seed: int, max_runs: int, budget_s: float, wo
     prop = get_prop(pid)
     setup_process()
     known, fixed = load_known(pid)
-    known_keys = {k['key'] for k in known}
+    known_key_set = {k['key'] for k in known}
     out = {'violations': [], 'known_hits': {}, 'harness_errors': [], 'lines': []}
 
     def say(s):
@@ -270,7 +301,7 @@ def run_batch(pid: str, tier: str, seed: int, max_runs: int, budget_s: float, wo
                 out['harness_errors'].append(f"fixed witness {ent['witness']}: {res['harness_error']}")
             elif res['failures']:
                 f0 = res['failures'][0]
-                if f0['sig'] in known_keys:
+                if any(key_matches(k, f0['sig']) for k in known_key_set):
                     continue
                 say(f"regression: fixed finding is back: {ent['text']}: {f0['clause']}: {f0.get('msg','')}")
                 out['violations'].append({'run': -1, 'replay': path, 'failure': f0,
@@ -281,6 +312,7 @@ def run_batch(pid: str, tier: str, seed: int, max_runs: int, budget_s: float, wo
     stats = {}
     shapes_nontrivial = set()
     shapes_all = set()
+    cover = {}
     samples = []
     total_steps = 0
     sim_time = 0.0
@@ -336,11 +368,16 @@ def run_batch(pid: str, tier: str, seed: int, max_runs: int, budget_s: float, wo
                         shapes_nontrivial.add(shp)
                 if len(samples) < 3 and res.get('nontrivial'):
                     samples.append(prop.sample_view(res['case']))
+                for kk, nn_ in (res.get('known_suppressed') or {}).items():
+                    out['known_hits'][kk] = out['known_hits'].get(kk, 0) + nn_
+                for cat, keys in (res.get('cover') or {}).items():
+                    cover.setdefault(cat, set()).update(keys)
                 fl = res['failures']
                 if fl:
                     f0 = fl[0]
-                    if f0['sig'] in known_keys:
-                        out['known_hits'][f0['sig']] = out['known_hits'].get(f0['sig'], 0) + 1
+                    kk = next((k for k in known_key_set if key_matches(k, f0['sig'])), None)
+                    if kk is not None:
+                        out['known_hits'][kk] = out['known_hits'].get(kk, 0) + 1
                     else:
                         first_failures.append((r, res['case'], f0, res['digest']))
             if first_failures and len(first_failures) >= 1:
@@ -381,10 +418,10 @@ def run_batch(pid: str, tier: str, seed: int, max_runs: int, budget_s: float, wo
         reported_sigs.add(f0['sig'])
         small = shrink(pid, case, f0['sig'])
         res = exec_case(pid, small)
-        fs = [f for f in res['failures'] if f['sig'] == f0['sig']]
+        fs = [f for f in res['failures'] if sig_class(f['sig']) == sig_class(f0['sig'])]
         if not fs:   # should not happen: shrink only keeps failing candidates
             small, res = case, exec_case(pid, case)
-            fs = [f for f in res['failures'] if f['sig'] == f0['sig']]
+            fs = [f for f in res['failures'] if sig_class(f['sig']) == sig_class(f0['sig'])]
         if not fs:
             out['harness_errors'].append(f'run {r}: failure {f0["sig"]} did not reproduce in the parent process')
             continue
@@ -427,6 +464,7 @@ def run_batch(pid: str, tier: str, seed: int, max_runs: int, budget_s: float, wo
         'cpu_seconds_in_runs': round(cpu_s, 2),
         'seeds': {'VERIF_SEED': seed, 'run_indices': [0, next_run - 1] if n_done else []},
         'fault_and_probe_counters': dict(sorted(stats.items())),
+        'distinct_reached': {cat: len(keys) for cat, keys in sorted(cover.items())},
         'determinism_reruns_checked': det_checked,
         'known_finding_hits': out['known_hits'],
         'witnesses': witness_stats,
